@@ -91,8 +91,24 @@ def create_meta(case, root, out):
         else:
             import torrentfile.torrent as tt
             cls = getattr(tt, creator)
-            t = cls(**build_kwargs(case, root, out))
+            kw = build_kwargs(case, root, out)
+            t = cls(**kw)
+            reuse = case.get("reuse")
+            if reuse == "other_first" and "path" in kw:
+                # a second object for ANOTHER payload is constructed after this one and used before it
+                other = os.path.join(os.path.dirname(out), "other-payload.bin")
+                write_file(other, content("reuse/other", 3 * BLOCK + 7))
+                kw2 = dict(kw, path=other, outfile=out + ".other")
+                for k2 in ("announce", "url_list", "httpseeds"):
+                    if isinstance(kw2.get(k2), list):
+                        kw2[k2] = list(kw2[k2])
+                t2 = cls(**kw2)
+                t2.write()
+                os.remove(out + ".other")
+                os.remove(other)
             t.write()
+            if reuse == "twice":          # the same object asked to write again
+                t.write()
         return "ok"
     except SystemExit as ex:
         return "exit:%s" % ex.code
